@@ -14,192 +14,176 @@ def statusOfInt (i : Int) : Option Status := Status.ofInt32 i
 
 /-! ## ValidateBasic -/
 
-def needAddr (want : Role) (t : TextAddr) : M Addr :=
-  if t.bytes.isEmpty then reject "validate: address cannot be empty"
-  else match t.parse want with
-    | some a => pure a
-    | none => reject "validate: invalid address"
+def needAddr (want : Role) (t : TextAddr) : M Addr := do
+  require (!t.bytes.isEmpty) "validate: address cannot be empty"
+  orReject (t.parse want) "validate: invalid address"
 
 def validCoinsField (name : String) (c : Option Coins) (required : Bool) : M Unit :=
   match c with
-  | none => if required then reject ("validate: " ++ name ++ " cannot be nil") else pure ()
-  | some cs =>
-    if cs.length = 0 then reject ("validate: " ++ name ++ " length cannot be zero")
-    else if !cs.isValid then reject ("validate: " ++ name ++ " must be valid")
-    else pure ()
+  | none => require (!required) ("validate: " ++ name ++ " cannot be nil")
+  | some cs => do
+    require (cs.length != 0) ("validate: " ++ name ++ " length cannot be zero")
+    require cs.isValid ("validate: " ++ name ++ " must be valid")
 
-def validDenomField (d : Denom) : M Unit :=
-  if d = "" then reject "validate: denom cannot be empty"
-  else if !validDenom d then reject "validate: invalid denom"
-  else pure ()
+def validDenomField (d : Denom) : M Unit := do
+  require (d != "") "validate: denom cannot be empty"
+  require (validDenom d) "validate: invalid denom"
+
+def validStatus (status : Int) (allowed : List Status) : M Unit :=
+  match statusOfInt status with
+  | some st => require (st.IsOneOf allowed) "validate: status"
+  | none => reject "validate: status"
 
 def Msg.validateBasic : Msg → M Unit
   | .provRegister frm name identity website desc webok => do
     let _ ← needAddr .acc frm
-    if name.length = 0 then reject "validate: name cannot be empty"
-    if name.length > 64 then reject "validate: name length"
-    if identity.length > 64 then reject "validate: identity length"
-    if website.length > 64 then reject "validate: website length"
-    if website.length ≠ 0 ∧ !webok then reject "validate: website"
-    if desc.length > 256 then reject "validate: description length"
+    require (name.length != 0) "validate: name cannot be empty"
+    require (decide (name.length ≤ 64)) "validate: name length"
+    require (decide (identity.length ≤ 64)) "validate: identity length"
+    require (decide (website.length ≤ 64)) "validate: website length"
+    require (website.length == 0 || webok) "validate: website"
+    require (decide (desc.length ≤ 256)) "validate: description length"
   | .provUpdate frm name identity website desc status webok => do
     let _ ← needAddr .prov frm
-    if name.length > 64 then reject "validate: name length"
-    if identity.length > 64 then reject "validate: identity length"
-    if website.length > 64 then reject "validate: website length"
-    if website.length ≠ 0 ∧ !webok then reject "validate: website"
-    if desc.length > 256 then reject "validate: description length"
-    match statusOfInt status with
-    | some st => if !st.IsOneOf [.StatusUnspecified, .StatusActive, .StatusInactive] then reject "validate: status"
-    | none => reject "validate: status"
+    require (decide (name.length ≤ 64)) "validate: name length"
+    require (decide (identity.length ≤ 64)) "validate: identity length"
+    require (decide (website.length ≤ 64)) "validate: website length"
+    require (website.length == 0 || webok) "validate: website"
+    require (decide (desc.length ≤ 256)) "validate: description length"
+    validStatus status [.StatusUnspecified, .StatusActive, .StatusInactive]
   | .nodeRegister frm gb hr url urlok => do
     let _ ← needAddr .acc frm
     validCoinsField "gigabyte_prices" gb true
     validCoinsField "hourly_prices" hr true
-    if url.length = 0 then reject "validate: remote_url cannot be empty"
-    if url.length > 64 then reject "validate: remote_url length"
-    if !urlok then reject "validate: remote_url"
+    require (url.length != 0) "validate: remote_url cannot be empty"
+    require (decide (url.length ≤ 64)) "validate: remote_url length"
+    require urlok "validate: remote_url"
   | .nodeUpdate frm gb hr url urlok => do
     let _ ← needAddr .node frm
     validCoinsField "gigabyte_prices" gb false
     validCoinsField "hourly_prices" hr false
-    if url.length ≠ 0 then
-      if url.length > 64 then reject "validate: remote_url length"
-      if !urlok then reject "validate: remote_url"
+    require (url.length == 0 || decide (url.length ≤ 64)) "validate: remote_url length"
+    require (url.length == 0 || urlok) "validate: remote_url"
   | .nodeStatus frm status => do
     let _ ← needAddr .node frm
-    match statusOfInt status with
-    | some st => if !st.IsOneOf [.StatusActive, .StatusInactive] then reject "validate: status"
-    | none => reject "validate: status"
+    validStatus status [.StatusActive, .StatusInactive]
   | .nodeSubscribe frm node gb hr denom => do
     let _ ← needAddr .acc frm
     let _ ← needAddr .node node
-    if gb = 0 ∧ hr = 0 then reject "validate: [gigabytes, hours] cannot be empty"
-    if gb ≠ 0 ∧ hr ≠ 0 then reject "validate: [gigabytes, hours] cannot be non-empty"
-    if gb < 0 then reject "validate: gigabytes cannot be negative"
-    if hr < 0 then reject "validate: hours cannot be negative"
+    require (!(gb == 0 && hr == 0)) "validate: [gigabytes, hours] cannot be empty"
+    require (!(gb != 0 && hr != 0)) "validate: [gigabytes, hours] cannot be non-empty"
+    require (decide (0 ≤ gb)) "validate: gigabytes cannot be negative"
+    require (decide (0 ≤ hr)) "validate: hours cannot be negative"
     validDenomField denom
   | .planCreate frm dur gb prices => do
     let _ ← needAddr .prov frm
-    if dur < 0 then reject "validate: duration cannot be negative"
-    if dur = 0 then reject "validate: duration cannot be zero"
-    if gb < 0 then reject "validate: gigabytes cannot be negative"
-    if gb = 0 then reject "validate: gigabytes cannot be zero"
+    require (decide (0 ≤ dur)) "validate: duration cannot be negative"
+    require (dur != 0) "validate: duration cannot be zero"
+    require (decide (0 ≤ gb)) "validate: gigabytes cannot be negative"
+    require (gb != 0) "validate: gigabytes cannot be zero"
     validCoinsField "prices" prices true
   | .planStatus frm id status => do
     let _ ← needAddr .prov frm
-    if id = 0 then reject "validate: id cannot be zero"
-    match statusOfInt status with
-    | some st => if !st.IsOneOf [.StatusActive, .StatusInactive] then reject "validate: status"
-    | none => reject "validate: status"
+    require (id != 0) "validate: id cannot be zero"
+    validStatus status [.StatusActive, .StatusInactive]
   | .planLink frm id node => do
     let _ ← needAddr .prov frm
-    if id = 0 then reject "validate: id cannot be zero"
+    require (id != 0) "validate: id cannot be zero"
     let _ ← needAddr .node node
   | .planUnlink frm id node => do
     let _ ← needAddr .prov frm
-    if id = 0 then reject "validate: id cannot be zero"
+    require (id != 0) "validate: id cannot be zero"
     let _ ← needAddr .node node
   | .planSubscribe frm id denom => do
     let _ ← needAddr .acc frm
-    if id = 0 then reject "validate: id cannot be zero"
+    require (id != 0) "validate: id cannot be zero"
     validDenomField denom
   | .subCancel frm id => do
     let _ ← needAddr .acc frm
-    if id = 0 then reject "validate: id cannot be zero"
+    require (id != 0) "validate: id cannot be zero"
   | .subAllocate frm id to bytes => do
     let _ ← needAddr .acc frm
-    if id = 0 then reject "validate: id cannot be zero"
+    require (id != 0) "validate: id cannot be zero"
     let _ ← needAddr .acc to
-    if bytes < 0 then reject "validate: bytes cannot be negative"
+    require (decide (0 ≤ bytes)) "validate: bytes cannot be negative"
   | .sessStart frm id node => do
     let _ ← needAddr .acc frm
-    if id = 0 then reject "validate: id cannot be zero"
+    require (id != 0) "validate: id cannot be zero"
     let _ ← needAddr .node node
   | .sessUpdate frm id up down dur sig => do
     let _ ← needAddr .node frm
-    if id = 0 then reject "validate: proof.id cannot be zero"
-    if up < 0 ∨ down < 0 then reject "validate: proof.bandwidth cannot be negative"
-    if dur < 0 then reject "validate: proof.duration cannot be negative"
-    if sig = .short then reject "validate: signature length"
+    require (id != 0) "validate: proof.id cannot be zero"
+    require (decide (0 ≤ up) && decide (0 ≤ down)) "validate: proof.bandwidth cannot be negative"
+    require (decide (0 ≤ dur)) "validate: proof.duration cannot be negative"
+    require (sig != .short) "validate: signature length"
   | .sessEnd frm id rating => do
     let _ ← needAddr .acc frm
-    if id = 0 then reject "validate: id cannot be zero"
-    if rating > 10 then reject "validate: rating"
+    require (id != 0) "validate: id cannot be zero"
+    require (decide (rating ≤ 10)) "validate: rating"
   | .swap frm hash recv amt => do
     let _ ← needAddr .acc frm
     let _ ← needAddr .acc recv
-    if hash.length = 0 then reject "validate: tx_hash cannot be empty"
-    if hash.length < 32 then reject "validate: tx_hash length"
-    if hash.length > 32 then reject "validate: tx_hash length"
-    if amt < 0 then reject "validate: amount cannot be negative"
-    if amt = 0 then reject "validate: amount cannot be zero"
-    if amt < 100 then reject "validate: amount cannot be less than 100"
+    require (hash.length == 32) "validate: tx_hash length"
+    require (decide (0 ≤ amt)) "validate: amount cannot be negative"
+    require (amt != 0) "validate: amount cannot be zero"
+    require (decide (100 ≤ amt)) "validate: amount cannot be less than 100"
 
 /-! ## provider -/
 
 def provRegister (s : State) (frm : Addr) (name identity website desc : Bytes) : M State := do
-  if hasProvider s frm then reject "duplicate provider"
-  let s ← fundCommunityPool s frm s.params.provDeposit
-  let p : Provider := { addr := frm, name, identity, website, desc, status := .StatusInactive, statusAt := s.time }
-  let s ← setProvider s p
-  pure (emit s (ev "sentinel.provider.v2.EventRegister" [("address", addrTxt .prov frm)]))
+  require (!hasProvider s frm) "duplicate provider"
+  let s1 ← fundCommunityPool s frm s.params.provDeposit
+  let s2 ← setProvider s1 { addr := frm, name, identity, website, desc, status := .StatusInactive, statusAt := s.time }
+  pure (emit s2 (ev "sentinel.provider.v2.EventRegister" [("address", addrTxt .prov frm)]))
 
-def provUpdate (s : State) (frm : Addr) (name identity website desc : Bytes) (status : Status) : M State := do
-  let some p := getProvider s frm | reject "provider not found"
+/-- The record after `MsgUpdate`'s field assignments. -/
+def provUpdated (p : Provider) (name identity website desc : Bytes) (status : Status) (now : Time) : Provider :=
   let p := if name.length > 0 then { p with name } else p
   let p := { p with identity, website, desc }
-  let (s, p) :=
-    if status ≠ .StatusUnspecified then
-      let s := if p.status = .StatusActive ∧ status = .StatusInactive then { s with provActive := s.provActive.erase frm } else s
-      let s := if p.status = .StatusInactive ∧ status = .StatusActive then { s with provInactive := s.provInactive.erase frm } else s
-      (s, { p with status, statusAt := s.time })
-    else (s, p)
-  let s ← setProvider s p
-  pure (emit s (ev "sentinel.provider.v2.EventUpdate" [("address", addrTxt .prov frm)]))
+  if status ≠ .StatusUnspecified then { p with status, statusAt := now } else p
+
+def provUpdate (s : State) (frm : Addr) (name identity website desc : Bytes) (status : Status) : M State := do
+  let p ← orReject (getProvider s frm) "provider not found"
+  let s1 := if status ≠ .StatusUnspecified ∧ p.status = .StatusActive ∧ status = .StatusInactive
+            then { s with provActive := s.provActive.erase frm } else s
+  let s2 := if status ≠ .StatusUnspecified ∧ p.status = .StatusInactive ∧ status = .StatusActive
+            then { s1 with provInactive := s1.provInactive.erase frm } else s1
+  let s3 ← setProvider s2 (provUpdated p name identity website desc status s.time)
+  pure (emit s3 (ev "sentinel.provider.v2.EventUpdate" [("address", addrTxt .prov frm)]))
 
 /-! ## node -/
 
 def nodeRegister (s : State) (frm : Addr) (gb hr : Coins) (url : Bytes) : M State := do
-  if !pricesWithin s.params.maxGB s.params.minGB gb then reject "invalid prices"
-  if !pricesWithin s.params.maxHr s.params.minHr hr then reject "invalid prices"
-  if hasNode s frm then reject "duplicate node"
-  let s ← fundCommunityPool s frm s.params.nodeDeposit
-  let n : Node := { addr := frm, gb, hr, url, inactiveAt := zeroTime, status := .StatusInactive, statusAt := s.time }
-  let s ← setNode s n
-  pure (emit s (ev "sentinel.node.v2.EventRegister" [("address", addrTxt .node frm)]))
+  require (pricesWithin s.params.maxGB s.params.minGB gb) "invalid prices"
+  require (pricesWithin s.params.maxHr s.params.minHr hr) "invalid prices"
+  require (!hasNode s frm) "duplicate node"
+  let s1 ← fundCommunityPool s frm s.params.nodeDeposit
+  let s2 ← setNode s1 { addr := frm, gb, hr, url, inactiveAt := zeroTime, status := .StatusInactive, statusAt := s.time }
+  pure (emit s2 (ev "sentinel.node.v2.EventRegister" [("address", addrTxt .node frm)]))
 
-def nodeUpdate (s : State) (frm : Addr) (gb hr : Option Coins) (url : Bytes) : M State := do
-  if let some g := gb then
-    if !pricesWithin s.params.maxGB s.params.minGB g then reject "invalid prices"
-  if let some h := hr then
-    if !pricesWithin s.params.maxHr s.params.minHr h then reject "invalid prices"
-  let some n := getNode s frm | reject "node not found"
+def nodeUpdated (n : Node) (gb hr : Option Coins) (url : Bytes) : Node :=
   let n := match gb with | some g => { n with gb := g } | none => n
   let n := match hr with | some h => { n with hr := h } | none => n
-  let n := if url.length ≠ 0 then { n with url } else n
-  let s ← setNode s n
-  pure (emit s (ev "sentinel.node.v2.EventUpdateDetails"
+  if url.length ≠ 0 then { n with url } else n
+
+def nodeUpdate (s : State) (frm : Addr) (gb hr : Option Coins) (url : Bytes) : M State := do
+  require (match gb with | some g => pricesWithin s.params.maxGB s.params.minGB g | none => true) "invalid prices"
+  require (match hr with | some h => pricesWithin s.params.maxHr s.params.minHr h | none => true) "invalid prices"
+  let n ← orReject (getNode s frm) "node not found"
+  let s1 ← setNode s (nodeUpdated n gb hr url)
+  pure (emit s1 (ev "sentinel.node.v2.EventUpdateDetails"
     [("address", addrTxt .node frm), ("gigabyte_prices", "-"), ("hourly_prices", "-"), ("remote_url", "-")]))
 
 def nodeStatus (s : State) (frm : Addr) (status : Status) : M State := do
-  let some n := getNode s frm | reject "node not found"
-  let s :=
-    if n.status = .StatusActive then
-      let s := { s with nodeQ := s.nodeQ.erase (n.inactiveAt, frm) }
-      if status = .StatusInactive then { s with nodeActive := s.nodeActive.erase frm } else s
-    else s
-  let s :=
-    if n.status = .StatusInactive ∧ status = .StatusActive then { s with nodeInactive := s.nodeInactive.erase frm } else s
-  let (s, n) :=
-    if status = .StatusActive then
-      let n := { n with inactiveAt := s.time + s.params.activeDur }
-      ({ s with nodeQ := s.nodeQ.set (n.inactiveAt, frm) () }, n)
-    else (s, n)
-  let n := if status = .StatusInactive then { n with inactiveAt := zeroTime } else n
-  let n := { n with status, statusAt := s.time }
-  let s ← setNode s n
-  pure (emit s (ev "sentinel.node.v2.EventUpdateStatus" [("status", status.String), ("address", addrTxt .node frm)]))
+  let n ← orReject (getNode s frm) "node not found"
+  let s1 := if n.status = .StatusActive then { s with nodeQ := s.nodeQ.erase (n.inactiveAt, frm) } else s
+  let s2 := if n.status = .StatusActive ∧ status = .StatusInactive then { s1 with nodeActive := s1.nodeActive.erase frm } else s1
+  let s3 := if n.status = .StatusInactive ∧ status = .StatusActive then { s2 with nodeInactive := s2.nodeInactive.erase frm } else s2
+  let s4 := if status = .StatusActive then { s3 with nodeQ := s3.nodeQ.set (s.time + s.params.activeDur, frm) () } else s3
+  let inactiveAt := if status = .StatusActive then s.time + s.params.activeDur
+                    else if status = .StatusInactive then zeroTime else n.inactiveAt
+  let s5 ← setNode s4 { n with inactiveAt, status, statusAt := s.time }
+  pure (emit s5 (ev "sentinel.node.v2.EventUpdateStatus" [("status", status.String), ("address", addrTxt .node frm)]))
 
 /-! ## subscription keeper: CreateSubscriptionForNode / ForPlan -/
 
@@ -209,125 +193,121 @@ def evAllocate (a : Alloc) : Event :=
   ev "sentinel.subscription.v2.EventAllocate"
     [("address", addrTxt .acc a.addr), ("granted_bytes", toString a.granted), ("utilised_bytes", toString a.used), ("id", toString a.id)]
 
+/-- The subscription record and its four index entries (`SetSubscription`, `…ForAccount`,
+`…ForNode`/`…ForPlan`, `…ForInactiveAt`) and the counter. -/
+def insertSub (s : State) (sub : Sub) : State :=
+  let s := { s with subCount := some sub.id }
+  let s := { s with subs := s.subs.set sub.id sub }
+  let s := { s with subForAcc := s.subForAcc.set (sub.addr, sub.id) () }
+  let s := match sub.kind with
+    | .node node _ _ _ => { s with subForNode := s.subForNode.set (node, sub.id) () }
+    | .plan planId _ => { s with subForPlan := s.subForPlan.set (planId, sub.id) () }
+  { s with subQ := s.subQ.set (sub.inactiveAt, sub.id) () }
+
+def insertPayout (s : State) (p : Payout) : State :=
+  let s := { s with payouts := s.payouts.set p.id p }
+  let s := { s with payForAcc := s.payForAcc.set (p.addr, p.id) () }
+  let s := { s with payForNode := s.payForNode.set (p.node, p.id) () }
+  let s := { s with payForAccNode := s.payForAccNode.set (p.addr, p.node, p.id) () }
+  let s := { s with payQ := s.payQ.set (p.nextAt, p.id) () }
+  emit s (ev "sentinel.subscription.v2.EventCreatePayout"
+    [("address", addrTxt .acc p.addr), ("node_address", addrTxt .node p.node), ("id", toString p.id)])
+
+/-- Per-gigabyte purchase: deposit `AmountForBytes(price, 10^9·gb)`, lease of 90 days, one allocation. -/
+def createNodeSubGB (s : State) (acc node : Addr) (n : Node) (gb : Int) (denom : Denom) : M (State × Sub) := do
+  let price ← orReject (n.gigabytePrice denom) "price not found"
+  let bytes ← SInt.mul Gigabyte gb
+  let amt ← AmountForBytes price.amount bytes
+  let dep ← newCoin price.denom amt
+  let id := s.subCount.getD 0 + 1
+  let sub : Sub := { id, addr := acc, inactiveAt := s.time + 90 * day, status := .StatusActive, statusAt := s.time, kind := .node node gb 0 dep }
+  let s1 ← addDeposit s acc dep
+  let s2 := insertSub s1 sub
+  let granted ← SInt.mul Gigabyte gb
+  let a : Alloc := { id, addr := acc, granted, used := 0 }
+  pure (emit (setAllocation s2 a) (evAllocate a), sub)
+
+/-- Per-hour purchase: deposit `price·hours`, lease of `hours`, one payout record due now. -/
+def createNodeSubHr (s : State) (acc node : Addr) (n : Node) (hr : Int) (denom : Denom) : M (State × Sub) := do
+  let price ← orReject (n.hourlyPrice denom) "price not found"
+  let amt ← SInt.mul price.amount hr
+  let dep ← newCoin price.denom amt
+  let id := s.subCount.getD 0 + 1
+  let sub : Sub := { id, addr := acc, inactiveAt := s.time + hr * hour, status := .StatusActive, statusAt := s.time, kind := .node node 0 hr dep }
+  let s1 ← addDeposit s acc dep
+  let s2 := insertSub s1 sub
+  let priceAmt ← SInt.quo dep.amount hr
+  let hourly ← newCoin dep.denom priceAmt
+  pure (insertPayout s2 { id, addr := acc, node, hours := hr, price := hourly, nextAt := s.time }, sub)
+
+/-- `CreateSubscriptionForNode`; `ValidateBasic` guarantees exactly one of `gb`, `hr` is non-zero. -/
 def createSubscriptionForNode (s : State) (acc node : Addr) (gb hr : Int) (denom : Denom) : M (State × Sub) := do
-  let some n := getNode s node | reject "node not found"
-  if n.status ≠ .StatusActive then reject "invalid node status"
-  let count := s.subCount.getD 0
-  let id := count + 1
-  let mut inactiveAt := zeroTime
-  let mut dep : Coin := ⟨"", 0⟩
-  if gb ≠ 0 then
-    let some price := n.gigabytePrice denom | reject "price not found"
-    inactiveAt := s.time + 90 * day
-    let bytes ← SInt.mul Gigabyte gb
-    let amt ← AmountForBytes price.amount bytes
-    dep ← newCoin price.denom amt
-  if hr ≠ 0 then
-    let some price := n.hourlyPrice denom | reject "price not found"
-    inactiveAt := s.time + hr * hour
-    let amt ← SInt.mul price.amount hr
-    dep ← newCoin price.denom amt
-  let sub : Sub := { id, addr := acc, inactiveAt, status := .StatusActive, statusAt := s.time, kind := .node node gb hr dep }
-  let s ← addDeposit s acc dep
-  let s := { s with subCount := some id }
-  let s := { s with subs := s.subs.set id sub }
-  let s := { s with subForAcc := s.subForAcc.set (acc, id) () }
-  let s := { s with subForNode := s.subForNode.set (node, id) () }
-  let s := { s with subQ := s.subQ.set (inactiveAt, id) () }
-  let mut s := s
-  if gb ≠ 0 then
-    let granted ← SInt.mul Gigabyte gb
-    let a : Alloc := { id, addr := acc, granted, used := 0 }
-    s := emit (setAllocation s a) (evAllocate a)
-  if hr ≠ 0 then
-    let priceAmt ← SInt.quo dep.amount hr
-    let price ← newCoin dep.denom priceAmt
-    let p : Payout := { id, addr := acc, node, hours := hr, price, nextAt := s.time }
-    s := { s with payouts := s.payouts.set id p }
-    s := { s with payForAcc := s.payForAcc.set (acc, id) () }
-    s := { s with payForNode := s.payForNode.set (node, id) () }
-    s := { s with payForAccNode := s.payForAccNode.set (acc, node, id) () }
-    s := { s with payQ := s.payQ.set (p.nextAt, id) () }
-    s := emit s (ev "sentinel.subscription.v2.EventCreatePayout"
-      [("address", addrTxt .acc acc), ("node_address", addrTxt .node node), ("id", toString id)])
-  pure (s, sub)
+  let n ← orReject (getNode s node) "node not found"
+  require (n.status = .StatusActive) "invalid node status"
+  if gb ≠ 0 then createNodeSubGB s acc node n gb denom else createNodeSubHr s acc node n hr denom
 
 def nodeSubscribe (s : State) (frm node : Addr) (gb hr : Int) (denom : Denom) : M State := do
-  if gb ≠ 0 then
-    if gb < s.params.minSubGB ∨ gb > s.params.maxSubGB then reject "invalid gigabytes"
-  if hr ≠ 0 then
-    if hr < s.params.minSubHr ∨ hr > s.params.maxSubHr then reject "invalid hours"
-  let (s, sub) ← createSubscriptionForNode s frm node gb hr denom
-  pure (emit s (ev "sentinel.node.v2.EventCreateSubscription"
-    [("address", addrTxt .acc frm), ("node_address", addrTxt .node node), ("id", toString sub.id)]))
+  require (gb == 0 || (decide (s.params.minSubGB ≤ gb) && decide (gb ≤ s.params.maxSubGB))) "invalid gigabytes"
+  require (hr == 0 || (decide (s.params.minSubHr ≤ hr) && decide (hr ≤ s.params.maxSubHr))) "invalid hours"
+  let r ← createSubscriptionForNode s frm node gb hr denom
+  pure (emit r.1 (ev "sentinel.node.v2.EventCreateSubscription"
+    [("address", addrTxt .acc frm), ("node_address", addrTxt .node node), ("id", toString r.2.id)]))
 
 def createSubscriptionForPlan (s : State) (acc : Addr) (planId : Nat) (denom : Denom) : M (State × Sub) := do
-  let some plan := getPlan s planId | reject "plan not found"
-  if plan.status ≠ .StatusActive then reject "invalid plan status"
-  let some price := plan.price denom | reject "price not found"
+  let plan ← orReject (getPlan s planId) "plan not found"
+  require (plan.status = .StatusActive) "invalid plan status"
+  let price ← orReject (plan.price denom) "price not found"
   let reward ← GetProportionOfCoin price s.params.provShare
-  let s ← sendCoinFromAccountToModule s acc feeCollectorAddr reward
+  let s1 ← sendCoinFromAccountToModule s acc feeCollectorAddr reward
   let payAmt ← SInt.sub price.amount reward.amount
-  if payAmt < 0 then gopanic "negative coin amount"
+  requireP (decide (0 ≤ payAmt)) "negative coin amount"
   let payment : Coin := ⟨price.denom, payAmt⟩
-  let s ← sendCoin s acc plan.prov payment
-  let s := emit s (ev "sentinel.subscription.v2.EventPayForPlan"
+  let s2 ← sendCoin s1 acc plan.prov payment
+  let s3 := emit s2 (ev "sentinel.subscription.v2.EventPayForPlan"
     [("address", addrTxt .acc acc), ("payment", payment.sdkString), ("provider_address", addrTxt .prov plan.prov),
      ("staking_reward", reward.sdkString), ("id", toString plan.id)])
-  let count := s.subCount.getD 0
-  let id := count + 1
-  let inactiveAt := s.time + plan.dur
-  let sub : Sub := { id, addr := acc, inactiveAt, status := .StatusActive, statusAt := s.time, kind := .plan plan.id price.denom }
-  let s := { s with subCount := some id }
-  let s := { s with subs := s.subs.set id sub }
-  let s := { s with subForAcc := s.subForAcc.set (acc, id) () }
-  let s := { s with subForPlan := s.subForPlan.set (plan.id, id) () }
-  let s := { s with subQ := s.subQ.set (inactiveAt, id) () }
+  let id := s.subCount.getD 0 + 1
+  let sub : Sub := { id, addr := acc, inactiveAt := s.time + plan.dur, status := .StatusActive, statusAt := s.time, kind := .plan plan.id price.denom }
+  let s4 := insertSub s3 sub
   let granted ← SInt.mul Gigabyte plan.gb
   let a : Alloc := { id, addr := acc, granted, used := 0 }
-  let s := emit (setAllocation s a) (evAllocate a)
-  pure (s, sub)
+  pure (emit (setAllocation s4 a) (evAllocate a), sub)
 
 /-! ## plan -/
 
 def planCreate (s : State) (frm : Addr) (dur : Dur) (gb : Int) (prices : Coins) : M State := do
-  if !hasProvider s frm then reject "provider not found"
-  let count := s.planCount.getD 0
-  let p : Plan := { id := count + 1, prov := frm, dur, gb, prices, status := .StatusInactive, statusAt := s.time }
-  let s := { s with planCount := some (count + 1) }
-  let s ← setPlan s p
-  let s := { s with planForProv := s.planForProv.set (frm, p.id) () }
-  pure (emit s (ev "sentinel.plan.v2.EventCreate" [("address", addrTxt .prov frm), ("id", toString p.id)]))
+  require (hasProvider s frm) "provider not found"
+  let id := s.planCount.getD 0 + 1
+  let s1 ← setPlan { s with planCount := some id } { id, prov := frm, dur, gb, prices, status := .StatusInactive, statusAt := s.time }
+  let s2 := { s1 with planForProv := s1.planForProv.set (frm, id) () }
+  pure (emit s2 (ev "sentinel.plan.v2.EventCreate" [("address", addrTxt .prov frm), ("id", toString id)]))
 
 def planStatus (s : State) (frm : Addr) (id : Nat) (status : Status) : M State := do
-  let some p := getPlan s id | reject "plan not found"
-  if frm ≠ p.prov then reject "unauthorized"
-  let s := if p.status = .StatusActive ∧ status = .StatusInactive then { s with planActive := s.planActive.erase id } else s
-  let s := if p.status = .StatusInactive ∧ status = .StatusActive then { s with planInactive := s.planInactive.erase id } else s
-  let p := { p with status, statusAt := s.time }
-  let s ← setPlan s p
-  pure (emit s (ev "sentinel.plan.v2.EventUpdateStatus"
+  let p ← orReject (getPlan s id) "plan not found"
+  require (frm = p.prov) "unauthorized"
+  let s1 := if p.status = .StatusActive ∧ status = .StatusInactive then { s with planActive := s.planActive.erase id } else s
+  let s2 := if p.status = .StatusInactive ∧ status = .StatusActive then { s1 with planInactive := s1.planInactive.erase id } else s1
+  let s3 ← setPlan s2 { p with status, statusAt := s.time }
+  pure (emit s3 (ev "sentinel.plan.v2.EventUpdateStatus"
     [("status", status.String), ("address", addrTxt .prov p.prov), ("id", toString id)]))
 
 def planLink (s : State) (frm : Addr) (id : Nat) (node : Addr) : M State := do
-  let some p := getPlan s id | reject "plan not found"
-  if frm ≠ p.prov then reject "unauthorized"
-  if !hasNode s node then reject "node not found"
-  let s := { s with nodeForPlan := s.nodeForPlan.set (id, node) () }
-  pure (emit s (ev "sentinel.plan.v2.EventLinkNode"
+  let p ← orReject (getPlan s id) "plan not found"
+  require (frm = p.prov) "unauthorized"
+  require (hasNode s node) "node not found"
+  pure (emit { s with nodeForPlan := s.nodeForPlan.set (id, node) () } (ev "sentinel.plan.v2.EventLinkNode"
     [("address", addrTxt .prov p.prov), ("node_address", addrTxt .node node), ("id", toString id)]))
 
 def planUnlink (s : State) (frm : Addr) (id : Nat) (node : Addr) : M State := do
-  let some p := getPlan s id | reject "plan not found"
-  if frm ≠ p.prov then reject "unauthorized"
-  let s := { s with nodeForPlan := s.nodeForPlan.erase (id, node) }
-  pure (emit s (ev "sentinel.plan.v2.EventUnlinkNode"
+  let p ← orReject (getPlan s id) "plan not found"
+  require (frm = p.prov) "unauthorized"
+  pure (emit { s with nodeForPlan := s.nodeForPlan.erase (id, node) } (ev "sentinel.plan.v2.EventUnlinkNode"
     [("address", addrTxt .prov p.prov), ("node_address", addrTxt .node node), ("id", toString id)]))
 
 def planSubscribe (s : State) (frm : Addr) (id : Nat) (denom : Denom) : M State := do
-  let (s, sub) ← createSubscriptionForPlan s frm id denom
-  pure (emit s (ev "sentinel.plan.v2.EventCreateSubscription"
-    [("address", addrTxt .acc frm), ("provider_address", "-"), ("id", toString sub.id), ("plan_id", toString id)]))
+  let r ← createSubscriptionForPlan s frm id denom
+  pure (emit r.1 (ev "sentinel.plan.v2.EventCreateSubscription"
+    [("address", addrTxt .acc frm), ("provider_address", "-"), ("id", toString r.2.id), ("plan_id", toString id)]))
 
 /-! ## session keeper pieces used by subscription -/
 
@@ -341,17 +321,20 @@ a *reverse* prefix iterator (ids are fixed width, so descending numeric order). 
 def sessionIdsForSub (s : State) (subId : Nat) : List Nat :=
   (((s.sessForSub.keys.filter (·.1 = subId)).map (·.2)).mergeSort (· ≤ ·)).reverse
 
+/-- Move a session to inactive-pending with a fresh deadline (record, queue entry, event). -/
+def sessionToPending (s : State) (x : Session) : State :=
+  let s := { s with sessQ := s.sessQ.erase (x.inactiveAt, x.id) }
+  let x := { x with inactiveAt := s.time + s.params.sessDelay, status := .StatusInactivePending, statusAt := s.time }
+  let s := { s with sessions := s.sessions.set x.id x }
+  let s := { s with sessQ := s.sessQ.set (x.inactiveAt, x.id) () }
+  emit s (evSessionStatus x .StatusInactivePending)
+
 /-- `SubscriptionInactivePendingHook` (x/session/keeper/hooks.go): every active session of the
 subscription becomes inactive-pending; a dangling index entry panics inside the iterator. -/
 def subscriptionInactivePendingHook (s : State) (subId : Nat) : M State :=
   (sessionIdsForSub s subId).foldlM (init := s) fun s sid => do
-    let some x := s.sessions.get sid | gopanic "session for subscription key does not exist"
-    if x.status ≠ .StatusActive then pure s else
-    let s := { s with sessQ := s.sessQ.erase (x.inactiveAt, x.id) }
-    let x := { x with inactiveAt := s.time + s.params.sessDelay, status := .StatusInactivePending, statusAt := s.time }
-    let s := { s with sessions := s.sessions.set x.id x }
-    let s := { s with sessQ := s.sessQ.set (x.inactiveAt, x.id) () }
-    pure (emit s (evSessionStatus x .StatusInactivePending))
+    let x ← orPanic (s.sessions.get sid) "session for subscription key does not exist"
+    pure (if x.status = .StatusActive then sessionToPending s x else s)
 
 /-! ## subscription -/
 
@@ -361,109 +344,116 @@ def evSubStatus (sub : Sub) (st : Status) : Event :=
 
 def isHourly (sub : Sub) : Bool := match sub.kind with | .node _ _ hr _ => hr ≠ 0 | _ => false
 
-/-- The tail shared by `MsgCancel` and the expiry branch of `EndBlock`: unlink the payout of an
-hourly subscription from the schedule and the lease index. `missing` says what a missing payout is
-(an error in the handler, a panic in the hook). -/
-def detachPayout (s : State) (sub : Sub) (missing : M State) : M State :=
-  if isHourly sub then
-    match s.payouts.get sub.id with
-    | none => missing
-    | some p =>
-      let s := { s with payForAccNode := s.payForAccNode.erase (p.addr, p.node, p.id) }
-      let s := { s with payQ := s.payQ.erase (p.nextAt, p.id) }
-      pure { s with payouts := s.payouts.set p.id { p with nextAt := zeroTime } }
+/-- Unlink a payout from the schedule and the lease index. -/
+def detachPayoutRec (s : State) (p : Payout) : State :=
+  let s := { s with payForAccNode := s.payForAccNode.erase (p.addr, p.node, p.id) }
+  let s := { s with payQ := s.payQ.erase (p.nextAt, p.id) }
+  { s with payouts := s.payouts.set p.id { p with nextAt := zeroTime } }
+
+/-- The tail shared by `MsgCancel` and the expiry branch of `EndBlock`. `inHook` says what a missing
+payout is: an error in the handler, a panic in the hook. -/
+def detachPayout (s : State) (sub : Sub) (inHook : Bool) : M State :=
+  if isHourly sub then do
+    let p ← (if inHook then orPanic (s.payouts.get sub.id) "payout for subscription does not exist"
+             else orReject (s.payouts.get sub.id) "payout not found")
+    pure (detachPayoutRec s p)
   else pure s
 
+/-- Status change active → inactive-pending of a subscription record (record, queue, event). -/
+def subToPending (s : State) (sub : Sub) (delay : Dur) : State × Sub :=
+  let sub' := { sub with inactiveAt := s.time + delay, status := .StatusInactivePending, statusAt := s.time }
+  let s := { s with subs := s.subs.set sub.id sub' }
+  let s := { s with subQ := s.subQ.set (sub'.inactiveAt, sub.id) () }
+  (emit s (evSubStatus sub' .StatusInactivePending), sub')
+
 def subCancel (s : State) (frm : Addr) (id : Nat) : M State := do
-  let some sub := s.subs.get id | reject "subscription not found"
-  if sub.status ≠ .StatusActive then reject "invalid subscription status"
-  if frm ≠ sub.addr then reject "unauthorized"
-  let delay := s.params.subDelay
-  let s := { s with subQ := s.subQ.erase (sub.inactiveAt, sub.id) }
-  let s ← subscriptionInactivePendingHook s sub.id
-  let sub := { sub with inactiveAt := s.time + delay, status := .StatusInactivePending, statusAt := s.time }
-  let s := { s with subs := s.subs.set sub.id sub }
-  let s := { s with subQ := s.subQ.set (sub.inactiveAt, sub.id) () }
-  let s := emit s (evSubStatus sub .StatusInactivePending)
-  detachPayout s sub (reject "payout not found")
+  let sub ← orReject (s.subs.get id) "subscription not found"
+  require (sub.status = .StatusActive) "invalid subscription status"
+  require (frm = sub.addr) "unauthorized"
+  let s1 ← subscriptionInactivePendingHook { s with subQ := s.subQ.erase (sub.inactiveAt, sub.id) } sub.id
+  detachPayout (subToPending s1 sub s.params.subDelay).1 sub false
+
+def isPlanSub (sub : Sub) : Bool := match sub.kind with | .plan .. => true | .node .. => false
 
 def subAllocate (s : State) (frm : Addr) (id : Nat) (to : Addr) (bytes : Int) : M State := do
-  let some sub := s.subs.get id | reject "subscription not found"
-  match sub.kind with
-  | .node .. => reject "invalid subscription"
-  | .plan .. => pure ()
-  if frm ≠ sub.addr then reject "unauthorized"
-  let some fromAlloc := s.allocs.get (id, frm) | reject "allocation not found"
-  let (s, toAlloc) := match s.allocs.get (id, to) with
-    | some a => (s, a)
-    | none => ({ s with subForAcc := s.subForAcc.set (to, id) () }, ({ id, addr := to, granted := 0, used := 0 } : Alloc))
+  let sub ← orReject (s.subs.get id) "subscription not found"
+  require (isPlanSub sub) "invalid subscription"
+  require (frm = sub.addr) "unauthorized"
+  let fromAlloc ← orReject (s.allocs.get (id, frm)) "allocation not found"
+  let toAlloc : Alloc := (s.allocs.get (id, to)).getD { id, addr := to, granted := 0, used := 0 }
+  let s1 := if (s.allocs.get (id, to)).isNone then { s with subForAcc := s.subForAcc.set (to, id) () } else s
   let granted ← SInt.add fromAlloc.granted toAlloc.granted
   let utilised ← SInt.add fromAlloc.used toAlloc.used
   let available ← SInt.sub granted utilised
-  if bytes > available then reject "insufficient bytes"
+  require (decide (bytes ≤ available)) "insufficient bytes"
   let fg ← SInt.sub available bytes
-  let fromAlloc := { fromAlloc with granted := fg }
-  if fromAlloc.granted < fromAlloc.used then reject "invalid allocation"
-  let s := emit (setAllocation s fromAlloc) (evAllocate fromAlloc)
-  let toAlloc := { toAlloc with granted := bytes }
-  if toAlloc.granted < toAlloc.used then reject "invalid allocation"
-  let s := emit (setAllocation s toAlloc) (evAllocate toAlloc)
-  pure s
+  require (decide (fromAlloc.used ≤ fg)) "invalid allocation"
+  let fromAlloc' := { fromAlloc with granted := fg }
+  let s2 := emit (setAllocation s1 fromAlloc') (evAllocate fromAlloc')
+  require (decide (toAlloc.used ≤ bytes)) "invalid allocation"
+  let toAlloc' := { toAlloc with granted := bytes }
+  pure (emit (setAllocation s2 toAlloc') (evAllocate toAlloc'))
 
 /-! ## session -/
 
 /-- `GetLatestPayoutForAccountByNode`: is there any lease-index entry for (account, node)?
 (the found payout itself is not used by the caller). -/
-def hasPayoutForAccountByNode (s : State) (acc node : Addr) : M Bool := do
-  let ids := ((s.payForAccNode.keys.filter (fun k => k.1 = acc ∧ k.2.1 = node)).map (·.2.2)).mergeSort (· ≤ ·)
-  match ids.getLast? with
+def hasPayoutForAccountByNode (s : State) (acc node : Addr) : M Bool :=
+  match (((s.payForAccNode.keys.filter (fun k => k.1 = acc ∧ k.2.1 = node)).map (·.2.2)).mergeSort (· ≤ ·)).getLast? with
   | none => pure false
-  | some id => match s.payouts.get id with
-    | some _ => pure true
-    | none => gopanic "payout for account by node key does not exist"
+  | some id => do
+    let _ ← orPanic (s.payouts.get id) "payout for account by node key does not exist"
+    pure true
 
 /-- `GetLatestSessionForAllocation`. -/
-def latestSessionForAllocation (s : State) (subId : Nat) (acc : Addr) : M (Option Session) := do
-  let ids := ((s.sessForAlloc.keys.filter (fun k => k.1 = subId ∧ k.2.1 = acc)).map (·.2.2)).mergeSort (· ≤ ·)
-  match ids.getLast? with
+def latestSessionForAllocation (s : State) (subId : Nat) (acc : Addr) : M (Option Session) :=
+  match (((s.sessForAlloc.keys.filter (fun k => k.1 = subId ∧ k.2.1 = acc)).map (·.2.2)).mergeSort (· ≤ ·)).getLast? with
   | none => pure none
-  | some id => match s.sessions.get id with
-    | some x => pure (some x)
-    | none => gopanic "session for subscription allocation key does not exist"
+  | some id => do
+    let x ← orPanic (s.sessions.get id) "session for subscription allocation key does not exist"
+    pure (some x)
+
+/-- The node/plan part of the admission check of `MsgStart`. -/
+def sessStartNodeCheck (s : State) (sub : Sub) (n : Node) (node : Addr) : M Unit :=
+  match sub.kind with
+  | .node snode _ _ _ => require (n.addr = snode) "invalid node"
+  | .plan planId _ => do
+    let plan ← orReject (getPlan s planId) "plan not found"
+    let leased ← hasPayoutForAccountByNode s plan.prov node
+    require leased "payout for address by node not found"
+    require (s.nodeForPlan.has (planId, node)) "invalid node"
+
+/-- Ownership and quota part: a node subscription only by its owner; quota unless hourly. -/
+def sessStartQuotaCheck (s : State) (sub : Sub) (acc : Addr) : M Unit := do
+  match sub.kind with
+  | .node _ _ _ _ => require (acc = sub.addr) "unauthorized"
+  | .plan _ _ => pure ()
+  if isHourly sub then pure () else do
+    let a ← orReject (s.allocs.get (sub.id, acc)) "allocation not found"
+    require (decide (a.used < a.granted)) "invalid allocation"
+
+def insertSession (s : State) (x : Session) : State :=
+  let s := { s with sessCount := some x.id }
+  let s := { s with sessions := s.sessions.set x.id x }
+  let s := { s with sessForAcc := s.sessForAcc.set (x.addr, x.id) () }
+  let s := { s with sessForNode := s.sessForNode.set (x.node, x.id) () }
+  let s := { s with sessForSub := s.sessForSub.set (x.sub, x.id) () }
+  let s := { s with sessForAlloc := s.sessForAlloc.set (x.sub, x.addr, x.id) () }
+  { s with sessQ := s.sessQ.set (x.inactiveAt, x.id) () }
 
 def sessStart (s : State) (frmT : TextAddr) (id : Nat) (node : Addr) : M State := do
-  let some sub := s.subs.get id | reject "subscription not found"
-  if sub.status ≠ .StatusActive then reject "invalid subscription status"
-  let some n := getNode s node | reject "node not found"
-  if n.status ≠ .StatusActive then reject "invalid node status"
-  match sub.kind with
-  | .node snode _ _ _ => if n.addr ≠ snode then reject "invalid node"
-  | .plan planId _ =>
-    let some plan := getPlan s planId | reject "plan not found"
-    if !(← hasPayoutForAccountByNode s plan.prov node) then reject "payout for address by node not found"
-    if !s.nodeForPlan.has (planId, node) then reject "invalid node"
-  let acc := frmT.bytes
-  let mut checkAllocation := true
-  if let .node _ _ hr _ := sub.kind then
-    if acc ≠ sub.addr then reject "unauthorized"
-    if hr ≠ 0 then checkAllocation := false
-  if checkAllocation then
-    let some a := s.allocs.get (id, acc) | reject "allocation not found"
-    if a.used ≥ a.granted then reject "invalid allocation"
-  if let some x ← latestSessionForAllocation s id acc then
-    if x.status = .StatusActive then reject "duplicate active session"
-  let count := s.sessCount.getD 0
-  let x : Session := { id := count + 1, sub := id, node, addr := acc, up := 0, down := 0, dur := 0,
+  let sub ← orReject (s.subs.get id) "subscription not found"
+  require (sub.status = .StatusActive) "invalid subscription status"
+  let n ← orReject (getNode s node) "node not found"
+  require (n.status = .StatusActive) "invalid node status"
+  sessStartNodeCheck s sub n node
+  sessStartQuotaCheck s sub frmT.bytes
+  let latest ← latestSessionForAllocation s id frmT.bytes
+  require (match latest with | some x => x.status ≠ .StatusActive | none => true) "duplicate active session"
+  let x : Session := { id := s.sessCount.getD 0 + 1, sub := id, node, addr := frmT.bytes, up := 0, down := 0, dur := 0,
                        inactiveAt := s.time + s.params.sessDelay, status := .StatusActive, statusAt := s.time }
-  let s := { s with sessCount := some (count + 1) }
-  let s := { s with sessions := s.sessions.set x.id x }
-  let s := { s with sessForAcc := s.sessForAcc.set (acc, x.id) () }
-  let s := { s with sessForNode := s.sessForNode.set (node, x.id) () }
-  let s := { s with sessForSub := s.sessForSub.set (id, x.id) () }
-  let s := { s with sessForAlloc := s.sessForAlloc.set (id, acc, x.id) () }
-  let s := { s with sessQ := s.sessQ.set (x.inactiveAt, x.id) () }
-  pure (emit s (ev "sentinel.session.v2.EventStart"
-    [("address", addrTxt .acc acc), ("node_address", addrTxt .node node), ("id", toString x.id), ("plan_id", "0"),
+  pure (emit (insertSession s x) (ev "sentinel.session.v2.EventStart"
+    [("address", addrTxt .acc x.addr), ("node_address", addrTxt .node node), ("id", toString x.id), ("plan_id", "0"),
      ("subscription_id", toString id)]))
 
 /-- `VerifySignature`, with the signature as an oracle: a report is accepted only when it was signed
@@ -474,46 +464,36 @@ def signatureOk (s : State) (acc : Addr) (sig : SigSpec) : Bool :=
   | _, _ => false
 
 def sessUpdate (s : State) (frm : Addr) (id : Nat) (up down dur : Int) (sig : SigSpec) : M State := do
-  let some x := s.sessions.get id | reject "session not found"
-  if x.status = .StatusInactive then reject "invalid session status"
-  if frm ≠ x.node then reject "unauthorized"
-  if s.params.proof then
-    if !signatureOk s x.addr sig then reject "invalid signature"
-  let (s, x) :=
-    if x.status = .StatusActive then
-      let s := { s with sessQ := s.sessQ.erase (x.inactiveAt, x.id) }
-      let x := { x with inactiveAt := s.time + s.params.sessDelay }
-      ({ s with sessQ := s.sessQ.set (x.inactiveAt, x.id) () }, x)
-    else (s, x)
-  let x := { x with up, down, dur }
-  let s := { s with sessions := s.sessions.set x.id x }
-  pure (emit s (ev "sentinel.session.v2.EventUpdateDetails"
+  let x ← orReject (s.sessions.get id) "session not found"
+  require (x.status ≠ .StatusInactive) "invalid session status"
+  require (frm = x.node) "unauthorized"
+  require (!s.params.proof || signatureOk s x.addr sig) "invalid signature"
+  let inactiveAt := if x.status = .StatusActive then s.time + s.params.sessDelay else x.inactiveAt
+  let s1 := if x.status = .StatusActive
+            then { s with sessQ := (s.sessQ.erase (x.inactiveAt, x.id)).set (inactiveAt, x.id) () } else s
+  let x' := { x with inactiveAt, up, down, dur }
+  pure (emit { s1 with sessions := s1.sessions.set x.id x' } (ev "sentinel.session.v2.EventUpdateDetails"
     [("address", addrTxt .acc x.addr), ("node_address", addrTxt .node x.node), ("id", toString x.id), ("plan_id", "0"),
      ("subscription_id", toString x.sub)]))
 
 def sessEnd (s : State) (frm : Addr) (id : Nat) : M State := do
-  let some x := s.sessions.get id | reject "session not found"
-  if x.status ≠ .StatusActive then reject "invalid session status"
-  if frm ≠ x.addr then reject "unauthorized"
-  let s := { s with sessQ := s.sessQ.erase (x.inactiveAt, x.id) }
-  let x := { x with inactiveAt := s.time + s.params.sessDelay, status := .StatusInactivePending, statusAt := s.time }
-  let s := { s with sessions := s.sessions.set x.id x }
-  let s := { s with sessQ := s.sessQ.set (x.inactiveAt, x.id) () }
-  pure (emit s (evSessionStatus x .StatusInactivePending))
+  let x ← orReject (s.sessions.get id) "session not found"
+  require (x.status = .StatusActive) "invalid session status"
+  require (frm = x.addr) "unauthorized"
+  pure (sessionToPending s x)
 
 /-! ## swap -/
 
 def swap (s : State) (frm : Addr) (hash : Bytes) (recv : Addr) (amt : Int) : M State := do
-  if !s.params.swapOn then reject "swap is disabled"
-  if s.params.approveBy ≠ frm then reject "unauthorized"
-  if s.swaps.has hash then reject "duplicate swap"
+  require s.params.swapOn "swap is disabled"
+  require (s.params.approveBy = frm) "unauthorized"
+  require (!s.swaps.has hash) "duplicate swap"
   let q ← SInt.quo amt 100
   let coin ← newCoin s.params.swapDenom q
-  let w : Swap := { hash, recv, amt := coin }
-  let s ← mintCoins s swapAddr coin
-  let s ← sendModuleToAccount s swapAddr recv coin
-  let s := { s with swaps := s.swaps.set hash w }
-  pure (emit s (ev "sentinel.swap.v1.EventSwap" [("tx_hash", toHex hash), ("receiver", addrTxt .acc recv)]))
+  let s1 ← mintCoins s swapAddr coin
+  let s2 ← sendModuleToAccount s1 swapAddr recv coin
+  pure (emit { s2 with swaps := s2.swaps.set hash { hash, recv, amt := coin } }
+    (ev "sentinel.swap.v1.EventSwap" [("tx_hash", toHex hash), ("receiver", addrTxt .acc recv)]))
 
 /-! ## routing -/
 
